@@ -17,13 +17,27 @@ RULE = ('a case = (reference FRU device: 2-4 FRU ids 0..255 incl. id 0 with dist
         'request/response trace, final device contents.  Independently every case is judged by the property: bytes = '
         'storage slice (areas located by the FRU storage format), every request names the caller\'s FRU id, written '
         'bytes land contiguously, a short acknowledge is an error.  Distinct by (device, operation); non-trivial = '
-        'at least two exchanges.')
+        'at least two exchanges.  HISTORIES on ONE Ipmi object against ONE device: (a) every single case again as the '
+        'SECOND operation after a randomly chosen other one (reads the device refuses at every size, reads of other / '
+        'unknown FRU ids, full, header, inventory reads); (b) directed: a refused read whose last size is odd / even, '
+        'then ranged and full reads (limits 255, 32, 2); image A read - other FRU read - image B written completely / '
+        'with an error code or a short acknowledge at chunk k >= 1 and resumed / tail first - inventory and '
+        'multirecord area read again; (c) random sequences of 2..6 operations (reads in and out of range, full reads, '
+        'writes, writes that fault at chunk k and are resumed, header / area / multirecord / inventory reads, several '
+        'FRU ids).  Every step is judged on its own against the contents the device holds when the step starts and '
+        'compared with the Lean model started from that device (the model has no state between calls); a violation '
+        'that a fresh object does not show is reported as ...:after-earlier-operations with the shrunk history.')
 ASSUMPTIONS = [
     'the device is the Lean reference device (Spec/FruDevice.lean): limit enforced by rejecting (or, second mode, by '
     'serving short); reads outside the area are refused with C9h; it never serves zero bytes',
     'FRU area *parsers* are substituted by recorders of the bytes handed to them (their correctness is C15); '
     'InventoryCommonHeader is the real one',
     'termination of the real loops is observed (request cap), in the model it is fuel derived from the loop measure',
+    'faults inside a history step (request k answered with a bare completion code; write k storing only n bytes) are '
+    'injected by the Lean device wrapper Spec.Fru.respondF (= the reference device while the plan is empty, theorem '
+    'faultless_plan_is_reference_device); what a write must raise on an error completion code is C08, here only a short '
+    'acknowledge must end in an exception and a read that was answered an injected error may fail but never return '
+    'other bytes',
 ]
 TRUSTED = ['harness/translate/loops10.py', 'harness/sim/dev10.py', 'harness/props/c10.py (generators, oracle)']
 
